@@ -23,7 +23,7 @@ THEOREMS = [
     "uniform_point_localised_on_imager_state",
 ]
 RULE = ("seeded generator of relation instances {additivity on unions, permutation, zero-weight points, empty "
-        "diagram / empty collection, single vs collection (element-wise, in order), n_jobs in {None,1,2,4} "
+        "diagram / empty collection, single vs collection (element-wise, in order), n_jobs in {None,1,2,4} x skew in {True,False} "
         "bit-identical, skew=True on (b,d) vs skew=False on (b,d-b), non-negativity, pixel total <= total weight, "
         "caller's array untouched} x kernels {isotropic, axis-aligned, correlated on both sides of 0.925, uniform} x "
         "weights {persistence, linear_ramp, user}; a quarter of the instances hand integer-valued points over as an int64 array / nested list of ints (and must give the image of the same points as float64); resolutions 2x2 .. 6x5, 1-12 points, points inside / on the "
@@ -307,9 +307,13 @@ def impl_run(cases):
                 cont = c.get("container", "f64")
                 arr = mk_arr(cont)
                 A, B, C = arr(c["A"]), arr(c["B"]), arr(c["C"])
-                o["J"][str(nj)] = [lst(x) for x in im.transform(conv([A, B, C], cont), skew=c["skew"], n_jobs=nj)]
-                if nj in (None, 2):
-                    o["Jsingle"][str(nj)] = lst(im.transform(conv(A, cont), skew=c["skew"], n_jobs=nj))
+                # n_jobs crossed with skew: the same arrays read as birth-death (skew=True) and as
+                # birth-persistence (skew=False)
+                for sk in (True, False):
+                    key = "%s/%s" % (nj, sk)
+                    o["J"][key] = [lst(x) for x in im.transform(conv([A, B, C], cont), skew=sk, n_jobs=nj)]
+                    if nj in (None, 1, 2):
+                        o["Jsingle"][key] = lst(im.transform(conv(A, cont), skew=sk, n_jobs=nj))
                 return None
             r = core.guarded(run)
             if r is not None:
@@ -388,16 +392,22 @@ def predicate(c, o):
                 return False, "collection: image of diagram %s inside the collection (element-wise, in order): %s" % (name, e)
         return True, ""
     if rel == "njobs":
-        ref = o["J"]["None"]
-        for nj in ("1", "2", "4"):
-            if len(o["J"][nj]) != len(ref):
-                return False, "njobs: n_jobs=%s returned %d images" % (nj, len(o["J"][nj]))
-            for k, (x, y) in enumerate(zip(ref, o["J"][nj])):
-                e = _close(x, y, 0.0)
+        for sk in ("True", "False"):
+            ref = o["J"]["None/" + sk]
+            for nj in ("1", "2", "4"):
+                got = o["J"]["%s/%s" % (nj, sk)]
+                if len(got) != len(ref):
+                    return False, "njobs: n_jobs=%s skew=%s returned %d images" % (nj, sk, len(got))
+                for k, (x, y) in enumerate(zip(ref, got)):
+                    e = _close(x, y, 0.0)
+                    if e:
+                        return False, "njobs: n_jobs=%s skew=%s image %d differs from serial: %s" % (nj, sk, k, e)
+            for nj in ("1", "2"):
+                e = _close(o["Jsingle"]["None/" + sk], o["Jsingle"]["%s/%s" % (nj, sk)], 0.0) or \
+                    _close(o["Jsingle"]["None/" + sk], ref[0], 0.0)
                 if e:
-                    return False, "njobs: n_jobs=%s image %d differs from serial: %s" % (nj, k, e)
-        e = _close(o["Jsingle"]["None"], o["Jsingle"]["2"], 0.0) or _close(o["Jsingle"]["None"], ref[0], 0.0)
-        return (e is None), ("njobs: single diagram, n_jobs=2 vs serial: %s" % e if e else "")
+                    return False, "njobs: single diagram, n_jobs=%s skew=%s vs serial: %s" % (nj, sk, e)
+        return True, ""
     if rel == "skew":
         if not o["unchanged"]:
             return False, "input-mutated: transform(skew=True) changed the caller's array"
@@ -447,7 +457,7 @@ def nontrivial(c, o):
         return True
     key = {"additivity": "AB", "permutation": "AB", "zero_weight": "A", "collection": "A", "skew": "S",
            "nonneg_total": "AB"}.get(c["rel"])
-    x = o["J"]["None"][0] if c["rel"] == "njobs" else (o["FT_BD"][0] if c["rel"] == "fit_transform" else o.get(key))
+    x = o["J"]["None/True"][0] if c["rel"] == "njobs" else (o["FT_BD"][0] if c["rel"] == "fit_transform" else o.get(key))
     if x is None or max(abs(v) for v in x["v"]) <= 1e-9:
         return False
     if c["rel"] == "permutation":
